@@ -239,6 +239,7 @@ var d8entries = []d8entry{
 	{"", "KoblitzCurve.ScalarBaseMult", "adaptorScalarBaseMultGen", true, "", "", "", "", ""},
 	{"", "PublicKey.X", "pubKeyX", true, "", "", "", "", ""},
 	{"", "PublicKey.Y", "pubKeyY", true, "", "", "", "", ""},
+	{"", "Signature.BruteforceRecoveryCode", "bruteforceRecoveryCode", false, "SigErr", "", "", "sig", "8"},
 	// fifth tranche: extended keys
 	{"ecckd", "KeyVersion.IsPrivate", "versionIsPrivateGen", true, "", "", "", "", ""},
 	{"ecckd", "KeyVersion.ToPublic", "versionToPublicGen", true, "", "", "", "", ""},
@@ -1924,6 +1925,9 @@ func (d *d8) retNode(st *ast.ReturnStmt, pre *[]*dnode) *dnode {
 			return d.rt(".err ()")
 		}
 	default:
+		if d.ent.out != "" {
+			return d.rt(".ok (" + val(res) + ", " + d.ent.out + ")") // the value(s) and the receiver as left by the function
+		}
 		return d.rt(".ok " + val(res))
 	}
 	return d.rt(".panic")
@@ -2662,6 +2666,9 @@ func (d *d8) retType() string {
 	}
 	if len(kinds) == 0 && d.ent.out != "" {
 		return "DR " + d.ent.errT + " (" + d.stype[d.ent.out] + ")"
+	}
+	if d.ent.out != "" && !d.ent.total {
+		return "DR " + d.ent.errT + " ((" + tup(kinds) + ") × (" + d.stype[d.ent.out] + "))"
 	}
 	if d.reader != "" {
 		return "DR " + d.ent.errT + " (" + tup(kinds) + ") × Reader"
